@@ -106,6 +106,29 @@ func GoEnv(extra ...string) []string {
 	return out
 }
 
+var (
+	goDirsOnce sync.Once
+	goDirs     []string
+)
+
+// GoDirs pins GOCACHE, GOPATH and GOMODCACHE to their current values so that a
+// run with a different HOME keeps using the warm caches (and does not litter
+// the fake home directory with a build cache of the go command, which is not
+// a file "written by the tool").
+func GoDirs() []string {
+	goDirsOnce.Do(func() {
+		so, _, code := RunCmd("", nil, "go", "env", "GOCACHE", "GOPATH", "GOMODCACHE")
+		if code != 0 {
+			return
+		}
+		v := strings.Split(strings.TrimSpace(so), "\n")
+		if len(v) == 3 {
+			goDirs = []string{"GOCACHE=" + v[0], "GOPATH=" + v[1], "GOMODCACHE=" + v[2]}
+		}
+	})
+	return goDirs
+}
+
 // Workers is the parallelism used for tool runs.
 func Workers() int {
 	if v, err := strconv.Atoi(os.Getenv("VERIF_WORKERS")); err == nil && v > 0 {
